@@ -177,6 +177,9 @@ func runC02(c *eng.Ctx) {
 	ruleAppendAssignsEpochsFromTheCache(c)
 	ruleAssignAcceptsOnNothingElse(c)
 	ruleLoadedEpochsBecomeTheCache(c)
+	ruleEveryEntryCarriesItsOwnEpoch(c)
+	c.Rule("R02.2", "K2")
+	ruleFollowerAlwaysAsksTheLeader(c)
 
 	// ---- R02.4 leader side
 	c.Rule("R05.5", "K2")
